@@ -262,6 +262,18 @@ def lattice_shape(ctx):
             okp = on_nz and not on_z
             why = "the run length is taken on the %s edge of the test" % (
                 "zero (not a space)" if on_z and not on_nz else "both" if on_z else "neither")
+            if okp:
+                # ... and on every path: once the character is a space, nothing else (a second
+                # condition, a constant) can stand in for the run length
+                rest = gfa.reachable(nz, avoid={gblk}) if nz != gblk else set()
+                if gfa is fa:
+                    escapes = edges0[0][0] in rest or any(gfa.term(x)["k"] == "return" for x in rest)
+                else:
+                    escapes = any(gfa.term(x)["k"] == "return" for x in rest)
+                if escapes:
+                    okp = False
+                    why = "on the is-space edge some path goes on without taking the run length " \
+                          "(a further condition decides how much is skipped)"
         ctx.ob("LATTICE", "build_lattice_inner|space-run-skipped-iff-space", okp, gfa.loc(gblk),
                "the run is skipped exactly when (categories of the character & SPACE set) != 0" if okp else
                "the space run is not skipped exactly when the character belongs to SPACE (%s): "
